@@ -12,7 +12,8 @@ import (
 // H_C09_results: k concurrent callers; the server answers in a chosen order and packaging; every caller gets
 // exactly the result addressed to its own request.
 //   kind 0: object results (pong with a distinguishing ping_id), 1: Bool, 2: bare Vector<long> with hint.
-//   pack 0: plain messages, 1: all answers in one container.
+//   pack 0: plain messages, 1: all answers in one container, 2/3: the same with a symbolic subset of the results
+//   gzip-packed inside their rpc_result.
 func H_C09_results(k, kind, pack int) {
 	verifrt.SetClock(1600000000, 0, 1000)
 	n := newNetEnv(11)
@@ -84,9 +85,13 @@ func H_C09_results(k, kind, pack int) {
 		case 2:
 			result = vectorOfLongs([]int64{tokens[i], int64(i)})
 		}
+		if pack >= 2 && verifrt.Bool() {
+			// the server packs large answers: rpc_result carrying gzip_packed (a symbolic subset of the answers)
+			result = gzipPacked(result)
+		}
 		bodies = append(bodies, rpcResult(reqs[j].msgID, result))
 	}
-	if pack == 1 {
+	if pack == 1 || pack == 3 {
 		ids := make([]int64, k)
 		seqs := make([]int32, k)
 		for x := range ids {
